@@ -107,6 +107,9 @@ func NewFunc(f interface{}, opts ...Arg) (*Func, error) {
 	}
 
 	fv := reflect.ValueOf(f)
+	if !fv.IsValid() {
+		return nil, fmt.Errorf("fn should be a function, got nil")
+	}
 	ft := fv.Type()
 	if k := ft.Kind(); k != reflect.Func {
 		return nil, fmt.Errorf("fn should be a function, got %s", k)
